@@ -101,16 +101,9 @@ func (rt *runtime) newBoundFunctionObject(target *object, this Value, argumentLi
 
 // [[Construct]].
 func (fn bindFunctionObject) construct(argumentList []Value) Value {
-	obj := fn.target
-	switch value := obj.value.(type) {
-	case nativeFunctionObject:
-		return value.construct(obj, fn.argumentList)
-	case nodeFunctionObject:
-		argumentList = append(fn.argumentList, argumentList...)
-		return obj.construct(argumentList)
-	default:
-		panic(fn.target.runtime.panicTypeError("construct unknown type %T", obj.value))
-	}
+	// 15.3.4.5.2: the target's [[Construct]] with the bound arguments followed by the call's.
+	bound := fn.argumentList[:len(fn.argumentList):len(fn.argumentList)]
+	return fn.target.construct(append(bound, argumentList...))
 }
 
 // nodeFunctionObject.
